@@ -128,10 +128,10 @@ let f _id vs =
                  let flag =
                    if not in_model then None
                    else if tg.tg_excl_cycle then Some "excl_sub_cycle"
-                   else if tg.tg_excl then Some "excl_negated_operand"
-                   else if tg.tg_union then Some "union_drops_exclusion"
-                   else if tg.tg_inter then Some "inter_den"
-                   else if tg.tg_merge then Some "merge_negated"
+                   else if tg.tg_excl then Some "excl_den_fail"
+                   else if tg.tg_union then Some "union_den_fail"
+                   else if tg.tg_inter then Some "inter_den_fail"
+                   else if tg.tg_merge then Some "merge_den_fail"
                    else if tg.tg_race then Some "status_race"
                    else None in
                  match flag with
@@ -162,13 +162,15 @@ let f _id vs =
                    let (v, conv) = sem u in
                    if conv then begin
                      let spec = atomval u v o rel in
-                     if spec <> T then
-                       classify (Printf.sprintf "returns %s, reference semantics says %s (impl=%s)" (subj_s u) (b3s spec) (set_s users));
+                     if spec <> T then begin
+                       let txt = Printf.sprintf "returns %s, reference semantics says %s (impl=%s)" (subj_s u) (b3s spec) (set_s users) in
+                       (* the result limit was reached before the traversal reported its error *)
+                       if spec = E && limit > 0 && in_model && (errs <> [] || amb <> []) then
+                         knowns := ("limit_drops_error " ^ where ^ " " ^ txt) :: !knowns
+                       else classify txt
+                     end;
                      (match check_vs_sem u o rel spec with
-                      | None ->
-                        (match Hashtbl.find_opt chk (u, o, rel) with
-                         | Some c when (c = 1 || c = 2) && spec = T -> ()
-                         | _ -> ())
+                      | None -> ()
                       | Some (Some fl, why) -> knowns := (fl ^ " " ^ where ^ " re-check of " ^ subj_s u ^ ": " ^ why) :: !knowns
                       | Some (None, why) -> props := (where ^ " re-check of " ^ subj_s u ^ ": " ^ why) :: !props)
                    end) users;
